@@ -371,6 +371,37 @@ func (c *Ctx) encodeFamilies(fn *ssa.Function) *encFunc {
 					}
 					facts := f.FactsAt(b)
 					at := f.pin(off.add(f.SliceLen(ap.Call.Args[0]), 1), facts)
+					// the appended value chosen among several buffers (a helper with one return per variant, inlined):
+					// one segment per alternative, under the condition of its edge
+					if ph, isPhi := ap.Call.Args[1].(*ssa.Phi); isPhi {
+						type alt struct {
+							v    ssa.Value
+							pred *ssa.BasicBlock
+						}
+						var alts []alt
+						okAlts := true
+						for i, ed := range ph.Edges {
+							if isNilConst(ed) {
+								continue
+							}
+							if _, _, isFam := e.famOf(ed); !isFam {
+								if a2 := isAppendCall(ed); a2 == nil {
+									okAlts = false
+								} else if _, _, ok2 := e.famOfAppendBase(a2); !ok2 {
+									okAlts = false
+								}
+							}
+							alts = append(alts, alt{ed, ph.Block().Preds[i]})
+						}
+						if okAlts && len(alts) >= 2 {
+							for _, a := range alts {
+								seg := encSeg{At: at, Src: a.v, Cond: c.variantCond(f, e.x, a.pred), Ins: ins, InLoop: inLoop(b)}
+								e.classifySeg(&seg, fm, facts)
+								fm.Segs = append(fm.Segs, seg)
+							}
+							continue
+						}
+					}
 					seg := encSeg{At: at, Src: ap.Call.Args[1], Cond: getCond(), Ins: ins, InLoop: inLoop(b)}
 					e.classifySeg(&seg, fm, facts)
 					fm.Segs = append(fm.Segs, seg)
@@ -619,6 +650,13 @@ func (e *encFunc) splitIterationRecords(loops []*loopInfo) {
 				V.Rows = append(V.Rows, r)
 				continue
 			}
+			// a field of the record header written afterwards through the accumulator itself (the length patched
+			// in once the body is appended: PutUint16(out[pos+2:pos+4], len(out)-pos))
+			if li.body[r.Ins.Block()] && dominatesInstr(H.Ins, r.Ins) && d.isConst() && d.C >= 0 && d.C+int64(r.Octets) <= n {
+				r.Off = konst(d.C)
+				V.Rows = append(V.Rows, r)
+				continue
+			}
 			keepRows = append(keepRows, r)
 		}
 		fm.Rows = keepRows
@@ -669,7 +707,8 @@ func (e *encFunc) classifySeg(seg *encSeg, into *family, facts []Fact) {
 	}
 	// single element through a varargs array
 	if sl, ok := src.(*ssa.Slice); ok {
-		if al, ok := sl.X.(*ssa.Alloc); ok && isByteArrayPtr(al.Type()) {
+		// (explicit octets only: a buffer made with a constant size, make([]byte, 4), is a family of its own)
+		if al, ok := sl.X.(*ssa.Alloc); ok && isByteArrayPtr(al.Type()) && al.Comment != "makeslice" {
 			if n, _ := arrayLen(al.Type()); n >= 1 {
 				// rows of that array become rows of the target at seg.At + index
 				for _, ref := range *al.Referrers() {
@@ -684,6 +723,31 @@ func (e *encFunc) classifySeg(seg *encSeg, into *family, facts []Fact) {
 					}
 				}
 				seg.Kind = "elem"
+				// the temporary array only carries the explicit octets to this append: its rows are the target's now
+				if afm, ok := e.fams[al]; ok && len(afm.Segs) == 0 && !afm.Returned {
+					only := true
+					for _, ref := range *al.Referrers() {
+						switch r := ref.(type) {
+						case *ssa.IndexAddr:
+						case *ssa.Slice:
+							if r != sl || len(*sl.Referrers()) != 1 {
+								only = false
+							}
+						default:
+							only = false
+						}
+					}
+					if only {
+						var order []*family
+						for _, o := range e.order {
+							if o != afm {
+								order = append(order, o)
+							}
+						}
+						e.order = order
+						delete(e.fams, al)
+					}
+				}
 				return
 			}
 		}
@@ -867,6 +931,26 @@ func (c *Ctx) encodeTablesOf(fn *ssa.Function, st *slotTables, recvRecord string
 			t = t.Parent
 		}
 		target[fm], base[fm] = t, off
+	}
+	if os.Getenv("IKELINT_DEBUG_ENC") != "" {
+		for _, fm := range e.order {
+			pn := "-"
+			if fm.Parent != nil {
+				pn = fm.Parent.Name + "@" + f.Show(fm.ParentAt)
+			}
+			tn := "-"
+			if target[fm] != nil {
+				tn = target[fm].Name
+			}
+			fmt.Fprintf(os.Stderr, "enc %s: family %s rec=%q rows=%d segs=%d parent=%s target=%s base=%s acc=%v\n", c.FuncName(fn), fm.Name, recOf[fm], len(fm.Rows), len(fm.Segs), pn, tn, f.Show(base[fm]), fm.isAccumulator())
+			for _, sg := range fm.Segs {
+				fn2 := "-"
+				if sg.Fam != nil {
+					fn2 = sg.Fam.Name
+				}
+				fmt.Fprintf(os.Stderr, "    seg at %s kind %s fam %s cond [%s] inloop=%v\n", f.Show(sg.At), sg.Kind, fn2, sg.Cond, sg.InLoop)
+			}
+		}
 	}
 	for _, fm := range e.order {
 		if fm.isAccumulator() {
